@@ -54,7 +54,8 @@ OBJ = sorted(KINDS)
 
 def _sel(rng, focus=None):
     if focus is not None and rng.random() < 0.5:
-        return focus, KINDS[focus]
+        k = rng.choice(focus) if isinstance(focus, list) else focus
+        return k, KINDS[k]
     k = rng.choice(OBJ)
     return k, KINDS[k]
 
@@ -66,6 +67,8 @@ def gen_request(rng, focus=None):
     if r < 0.45:
         kind, sel = _sel(rng, focus)
         p = rng.choice(c20.PROTOS + ["wap-auto"])
+        if focus is not None and rng.random() < 0.4:
+            p = rng.choice(["gopher!", "gopher$", "gopher+", "http", "gopher"])   # info-bearing views
         search = rng.choice([None, None, None, "needle", "two words"])
         req, tls = proto.make_request(p, sel, search)
         return {"data": req.decode("latin-1"), "tls": tls, "half_close": half_close,
@@ -198,7 +201,11 @@ def gen(seed, index, tier):
     n = rng.randrange(4, 17)
     hist = []
     # half of the valid requests of a history address the same object (in different protocols)
-    focus = rng.choice(["menu", "menu-root", "menu-root", "zip-listing", "mbox-folder", "gophermap", None])
+    focus = rng.choice(["menu", "menu-root", "menu-root", "zip-listing", "mbox-folder", "gophermap", None,
+                        ["zip-html-a", "zip-html-b", "zip-web-listing"],
+                        ["mbox-message", "mbox-message-1", "mbox-folder", "maildir-message", "maildir-message-2"],
+                        ["zip-member", "zip2-member", "zip-listing", "zip2-listing"],
+                        ["html", "tal", "gz", "script", "pyg"]])
     for i in range(n):
         rq = gen_request(rng, focus)
         nb = len(rq["data"])
